@@ -4,6 +4,10 @@ import json, os, sys
 HERE = os.path.dirname(os.path.dirname(os.path.abspath(__file__)))
 
 CHECKS = {
+ 'C01': dict(level='other', technique='path summaries over the AST of every e-mail function and of eav_setup/eav_is_email in three backends; switch-arm wiring table; twin agreement of summaries',
+             text='Decides the structural half of the statement on every path (all functions involved are loop-free, so the path sets are finite and complete): each EAV_RFC enumerator is wired to its own callback with a consistent utf8 flag, the dispatch passes (email, length, tld_check) unchanged, is_<m>_email calls is_<m>_local on [email, last @) after length != 0 / @ present / @ not last / <= 64 octets (evaluated at 64 and 65), the domain validator gets (@+1, email+length), the bracket branch is taken iff the first domain byte is [, rejected shapes carry their codes, and the four functions agree outside the local-part callee.',
+             note='The per-part languages are decided by C02-C05, the TLD policy by C07-C09. Trusts clang-14 AST and lib/cfgpaths.py. idn/idnkit backends parsed against stub headers.',
+             ref='DESIGN.md section 3 / C01'),
  'C02': dict(level='model_checking', technique='automaton extraction by abstract interpretation of the scanner source + exhaustive product exploration against a specification DFA',
              text='Language equality, for strings of every length over bytes 0x01-0xFF, between each of is_822_local / is_5321_local / is_5322_local (extracted from the current source as a finite transition system: integer locals concrete, pointers cursor-relative, bytes as classes that no comparison in code or spec can distinguish) and the mode\'s specification DFA written from the statement. The joint space is finite and explored completely, so there is no length bound.',
              note='Trusts clang-14 AST, the C-subset evaluator of lib/scanex.py (a construct outside the subset stops the check with exit 2), the spec DFAs in spec/localpart.py with their listed reading choices, ASCII-range ctype semantics = C locale. The witness strings are report artefacts; nothing is executed.',
@@ -20,6 +24,10 @@ CHECKS = {
              text='No specification is involved: the four scanners, extracted from the current source, are explored jointly on every ASCII string without DQUOTE/backslash (same return code required) and 5321 vs 822 on all bytes (inclusion); the three ASCII e-mail functions must have identical path summaries up to the local-part callee and is_6531_email (3 backends) must equal them outside the host-name branch, which makes domain verdict, class and flags mode-independent.',
              note='Trusts clang-14 AST, lib/scanex.py, lib/cfgpaths.py. The IDN exemption for mode 6531 is structural (C10).',
              ref='DESIGN.md section 3 / C12'),
+ 'C05': dict(level='model_checking', technique='must-pass-through path rules over every check_ip expansion + extracted automata of is_ipv4 and is_ipv6 sandwiched between RFC 5321 (must accept) and RFC 4291 (may accept) specification automata',
+             text='R5.1-R5.3, R5.6 are decided on all paths of the six expansions of check_ip (nothing after the bracket, skipped bytes compared with IPv6:, family flag established by the validator or a colon test on the validated range, minimum length and reject codes). O5.5/O5.7: is_ipv4 and is_ipv6 are extracted from the source (strspn modelled lazily on the window) and explored jointly with lower- and upper-bound automata for strings of every length; the dotted-quad tail is handled compositionally (is_ipv6 must hand the tail, from the start of its first octet, to is_ipv4 exactly where the grammar has one; is_ipv4 is then bounded on its own).',
+             note='Bracket context only (range ends at ], which every strspn set excludes); quads with a zero first octet are bounded from neither side by the statement. Trusts clang-14 AST, lib/scanex.py, spec/iplit.py.',
+             ref='DESIGN.md section 3 / C05'),
  'C08': dict(level='other', technique='switch-arm table extraction + path summaries over the AST (3 backends)',
              text='Complete for the statement: every class has exactly one arm testing exactly its own single-bit constant, the switch is reached only for rc > 0, and the tld_check gate precedes every TLD-related call; decided on all paths of eav_is_email/eav_init in all three backends and of the six gate sites. The 2^11 masks collapse to 9 single-bit tests, so no enumeration of inputs is needed.',
              note='Trusts clang-14 AST, Engine A path enumeration (lib/cfgpaths.py). Not decided here: that the class handed to the switch is the right one (C07/C09). idn and idnkit backends are parsed against declaration-only stub headers.',
